@@ -5,7 +5,8 @@
  *      is part of what is checked.  types.c callees are stubs with symbolic outcomes; ghost flags per PDU object.
  * Queue of NRESP (concrete) replies.  For every combination of callee outcomes and member presence:
  *   (1) response payload, configuration payload, user callback are reached only for a PDU whose verification returned
- *       KSI_OK under the endpoint's key (error PDUs are set aside unverified and deliver nothing);
+ *       KSI_OK under the endpoint's key (error PDUs are set aside unverified and deliver nothing - also when they carry
+ *       a response and / or configuration payload next to the error payload);
  *   (2) a waiting handle receives a response object (respCtx) only from such a PDU, and only if the response's request id
  *       selects exactly this handle (slot = low 32 bits, full 64-bit id equal), the handle is waiting for a response,
  *       KSI_*Resp_verifyWithRequest(resp, the handle's own request) returned KSI_OK and the status converts to KSI_OK;
@@ -196,7 +197,9 @@ void harness(void) {
 		if (parsed[k] && was_err[k] && !pdus[k].has_err && errs[k].freed != 1) err_freed_ok = 0;   /* detached from the PDU -> owned by the queue loop */
 	}
 	CHECK(freed_ok, "C06.H5a every parsed PDU object is released exactly once");
+	/* has_err, has_resp and has_conf of a reply are independent: an error PDU that ALSO carries a response / configuration payload is covered */
 	CHECK(err_quiet, "C06.H5a an error PDU is neither verified nor handed to the response handler");
+	if (was_err[0] && pdus[0].has_resp && pdus[0].has_conf && parsed[0] && g_cb_calls == 0 && H.respCtx == NULL) WITNESS_POINT("error PDU carrying response and configuration payloads: nothing delivered");
 	CHECK(err_freed_ok, "C06.H5a every detached error object is released exactly once");
 
 	/* delivery to the handle */
